@@ -151,6 +151,31 @@ func genAgg(t *rapid.T) Generated {
 			labels["agg-feeds-same-stratum"] = true
 		}
 	}
+	// A fifth of the programs without an average: every number of the base facts is moved up by 2^53, where
+	// neighbouring integers are no longer distinct as float64 (min, max, sum, count and the group keys are exact
+	// integer operations; an average of such numbers is not asked for - its float result depends on the order).
+	usesAvg := false
+	for _, r := range g.Prog.Rules {
+		if r.Do != nil {
+			for _, l := range r.Do.Lets {
+				usesAvg = usesAvg || l.Fn.Fn == "fn:avg"
+			}
+		}
+	}
+	if !usesAvg && rapid.IntRange(0, 4).Draw(t, "beyond2p53") == 0 {
+		lift := func(as []Atom) {
+			for _, a := range as {
+				for i, arg := range a.Args {
+					if arg.C != nil && arg.C.T == val.Num {
+						a.Args[i] = Const(val.I(arg.C.Int() + 1<<53))
+					}
+				}
+			}
+		}
+		lift(g.Prog.Facts)
+		lift(g.Extra)
+		labels["numbers-beyond-2^53"] = true
+	}
 	g.Labels = g.Labels[:0]
 	for l := range labels {
 		g.Labels = append(g.Labels, l)
